@@ -49,6 +49,10 @@ func setfs(uid, gid int, groups []int) error {
 	return nil
 }
 
+// SetFS switches the file-system identity of the calling thread; it must be
+// called from a closure running on an oracle thread.
+func SetFS(uid, gid int, groups []int) error { return setfs(uid, gid, groups) }
+
 // New starts an oracle thread whose root is a fresh directory below base
 // (a tmpfs directory such as /dev/shm).  It proves its own preconditions.
 func New(base string) (*Thread, error) {
